@@ -212,25 +212,27 @@ def _reg(p):
 
 
 _reg(DecodeProp(
-    "C01", ["CvssVerif.Props.C01"],
+    "C01", ["CvssVerif.Props.C01", "CvssVerif.Props.E2E"],
     ["CvssVerif.Props.C01.base3_eq_spec", "CvssVerif.Props.C01.base3_range", "CvssVerif.Props.C01.base3_zero_iff",
-     "CvssVerif.Props.C01.base3_score_of_object", "CvssVerif.Props.C01.base3_model_zero_iff"],
+     "CvssVerif.Props.C01.base3_score_of_object", "CvssVerif.Props.C01.base3_model_zero_iff",
+     "CvssVerif.Props.E2E.base_score_of_string"],
     _c01,
     "exhaustive enumeration of version x 8 base metrics at each of the three decoders plus one random permutation per "
     "vector; a case is distinct by (decoder, string) and non-trivial when the decoder returned normally",
     assumptions=["go1.23 amd64 without FMA fusion (GOAMD64=v1)"]))
 
 _reg(DecodeProp(
-    "C02", ["CvssVerif.Props.C02", "CvssVerif.Props.C01"],
+    "C02", ["CvssVerif.Props.C02", "CvssVerif.Props.C01", "CvssVerif.Props.E2E"],
     ["CvssVerif.Props.C02.temporal3_eq_spec", "CvssVerif.Props.C02.temporal3_grid", "CvssVerif.Props.C02.temporal3_score_of_object",
-     "CvssVerif.Props.C01.base3_eq_spec", "CvssVerif.Props.C01.base3_range"],
+     "CvssVerif.Props.C01.base3_eq_spec", "CvssVerif.Props.C01.base3_range", "CvssVerif.Props.E2E.temporal_score_of_string"],
     _c02,
     "exhaustive enumeration of version x base x (E, RL, RC) through the temporal decoder; plus seeded vectors with "
     "omitted / explicit X metrics in random order at the T and E decoders; distinct by (decoder, string)"))
 
 _reg(DecodeProp(
-    "C03", ["CvssVerif.Props.C03"],
-    ["CvssVerif.Props.C03.env3_eq_spec", "CvssVerif.Props.C03.env3_range", "CvssVerif.Props.C03.env3_score_of_object"],
+    "C03", ["CvssVerif.Props.C03", "CvssVerif.Props.E2E"],
+    ["CvssVerif.Props.C03.env3_eq_spec", "CvssVerif.Props.C03.env3_range", "CvssVerif.Props.C03.env3_score_of_object",
+     "CvssVerif.Props.E2E.env_scores_of_string"],
     _c03,
     "exhaustive enumeration of the effective-metric domain (every Modified metric explicit) with temporal X; all pairs "
     "(Modified value incl. X, base value) in seeded random contexts; seeded random full vectors; distinct by string"))
@@ -256,8 +258,8 @@ _reg(DecodeProp(
                  "known only if its tuple is listed with the same adjusted base score and the rest of the chain follows the specification"]))
 
 _reg(DecodeProp(
-    "C06", ["CvssVerif.Props.C06"],
-    ["CvssVerif.Props.C06.tenth_nearest", "CvssVerif.Props.C06.tenth_prints_one_decimal", "CvssVerif.Props.C06.sev3_band",
+    "C06", ["CvssVerif.Props.C06", "CvssVerif.Props.E2E"],
+    ["CvssVerif.Props.E2E.env_severities_of_string", "CvssVerif.Props.C06.tenth_nearest", "CvssVerif.Props.C06.tenth_prints_one_decimal", "CvssVerif.Props.C06.sev3_band",
      "CvssVerif.Props.C06.sev2_band", "CvssVerif.Props.C06.v3_base", "CvssVerif.Props.C06.v3_temporal", "CvssVerif.Props.C06.v3_environmental",
      "CvssVerif.Props.C06.v2_base", "CvssVerif.Props.C06.v2_temporal", "CvssVerif.Props.C06.v2_environmental"],
     _c06,
@@ -723,7 +725,7 @@ FORMULA_DEFS = {
 # complete, and losing it without an explanation is reported as the brief prescribes (no-failing-input-found)
 FORMULA_TIE_REQUIRED = ("C03", "C05")
 SRC_MODULE = "CvssVerif.Props.Src"
-SRC_THEOREMS = ["v3_source_is_model", "v2_source_is_model", "base3_source", "temporal3_source", "env3_source",
+SRC_THEOREMS = ["v3_source_is_model", "v2_source_is_model", "base3_source", "temporal3_source", "env3_source", "source_scores_of_string",
                 "severity3_source", "severity2_source"]
 
 
